@@ -122,3 +122,22 @@ Definition c09_counts (tr : trace) : nat * nat * nat * nat :=
     | KProbeApply _ false _ _ => (a, b, c, S d)
     | _ => (a, b, c, d)
     end) tr (0, 0, 0, 0).
+
+(** ** Every state change is followed by a rebuild of the rotation
+
+    [c09_rebuild_ok]: a probe goroutine whose result changed the state of its target
+    (previous state <> new state) rebuilds the rotation before it applies its next
+    result; and a failing result never leaves (or makes) the target healthy. *)
+Definition ow_step (l : list actor) (e : event) : option (list actor) :=
+  match e_k e with
+  | KProbeApply _ ok prev new =>
+    if owes l (e_by e) || (negb ok && tstate_eqb new THealthy) then None
+    else Some (if tstate_eqb prev new then l else e_by e :: l)
+  | KRotation _ _ => Some (unowe l (e_by e))
+  | _ => Some l
+  end.
+
+Definition c09_rebuild_ok (tr : trace) : bool :=
+  match run ow_step [] tr with Some _ => true | None => false end.
+
+Definition c09_rebuild_fail_at (tr : trace) : option nat := first_reject ow_step [] tr 0.
